@@ -85,6 +85,10 @@ func (P *Prog) verifyFunc(key string, sweepOnly bool) (res *FuncResult) {
 		x.params[fv.Name()] = v
 	}
 	x.entry = st.snapshot()
+	func() {
+		defer func() { recover() }()
+		x.replay = x.prepareReplay(st, fr)
+	}()
 	env := &Env{st: st, vars: x.params, pkg: x.pkgOf(fn), old: x.entry}
 	if con != nil {
 		for _, rq := range con.Requires {
@@ -150,6 +154,8 @@ func (x *Exec) atExit(st *State, fr *Frame, rets []Val, pos token.Pos) {
 		env.vars[k] = v
 	}
 	x.bindResults(x.fn, env, rets)
+	x.curRets = rets
+	defer func() { x.curRets = nil }()
 	for _, pn := range x.con.Plain {
 		for i := range rets {
 			if (pn == fmt.Sprintf("result%d", i) || (pn == "result" && len(rets) == 1)) && rets[i].K == KPtr {
